@@ -85,9 +85,7 @@ Proof.
       * destruct (N.eqb_spec c 42) as [->|Hc42]; cbn [fst snd].
         -- change (utf8_len 42) with 1%nat. change (scalar_bytes 42) with 1%nat in *.
            rewrite emit_put, IHb. reflexivity.
-        -- rewrite emit_put, HC. cbn [lex_from dstep].
-           rewrite (proj2 (N.eqb_neq c 47) Hc47). cbn [fst snd].
-           rewrite put_put. reflexivity.
+        -- rewrite !emit_put, put_put, Hlen, IHc. reflexivity.
     + (* DStar *)
       intros o Hoff. cbn [pp lex_from dstep]. change (42 =? 42) with true. cbv iota.
       change (utf8_len 42) with 1%nat. replace (off - 1 + 1)%nat with off by lia.
